@@ -26,6 +26,8 @@ def ann_obj(name):
         "Inj": R.Inj, "Other": R.Other, "int": int, "str": str, "tuple": tuple, "float": float, "bool": bool,
         "List[int]": typing.List[int], "list[int]": list[int], "Tuple[int, int]": typing.Tuple[int, int], "Dict[str, int]": typing.Dict[str, int],
         "partial": __import__("functools").partial,
+        # only used on attributes that already have a value (those are never looked at by the injector)
+        "Optional[Inj]": typing.Optional[R.Inj], "Union[int, str]": typing.Union[int, str],
     }[name]
 
 
@@ -40,6 +42,7 @@ def fresh(ann, salt):
         "Inj": lambda: R.Inj(), "Other": lambda: R.Other(), "int": lambda: 1000 + salt, "str": lambda: f"text{salt}",
         "tuple": lambda: (salt, "t"), "float": lambda: 0.5 + salt, "bool": lambda: True,
         "List[int]": lambda: [salt], "list[int]": lambda: [salt, salt], "Tuple[int, int]": lambda: (salt, salt), "Dict[str, int]": lambda: {"k": salt},
+        "Optional[Inj]": lambda: R.Inj(), "Union[int, str]": lambda: 2000 + salt,
     }[ann]()
 
 
@@ -300,7 +303,7 @@ def write_mode(mode):
     open(os.path.join(pkg, "__init__.py"), "w").close()
     lines = []
     for a in mode["attrs"]:
-        t = {"List[int]": "typing.List[int]", "Tuple[int, int]": "typing.Tuple[int, int]", "Dict[str, int]": "typing.Dict[str, int]", "partial": "__import__('functools').partial"}.get(a["ann"], a["ann"])
+        t = {"List[int]": "typing.List[int]", "Tuple[int, int]": "typing.Tuple[int, int]", "Dict[str, int]": "typing.Dict[str, int]", "partial": "__import__('functools').partial", "Optional[Inj]": "typing.Optional[Inj]", "Union[int, str]": "typing.Union[int, str]"}.get(a["ann"], a["ann"])
         if t.startswith("class:"):
             t = f"Probe.classes[{int(t[6:])}]"
         if a["rel"] == "preset":
@@ -342,6 +345,8 @@ def decode(code):
             a["ann"] = ["int", "str", "tuple", "float", "bool", "int"][type_c]
         elif rel == "generic":
             a["ann"] = GENERICS[gen_c]
+        elif rel in ("preset", "init") and gen_c == 3:
+            a["ann"] = ["Optional[Inj]", "Union[int, str]"][type_c % 2]  # a common way to annotate an attribute with a default
         elif rel == "private":
             a["n"] = "_" + n
         elif rel == "shared":
